@@ -71,7 +71,7 @@ def gen(r, tier):
     # the garbage collector is part of the schedule: it is off while a run proceeds and runs exactly at these times
     gc_at = sorted(round(r.uniform(0, t + 3), 3) for _ in range(r.choice([0, 1, 2, 4])))
     return {"reqs": reqs, "nosite": r.chance(0.05), "net": faults.swarm(r, kinds=("drop", "dup", "delay")),
-            "stall": r.chance(0.1), "gc_at": gc_at}
+            "stall": r.chance(0.1), "gc_at": gc_at, "same_host": r.chance(0.3)}
 
 
 def systematic(tier):
@@ -282,7 +282,10 @@ def execute(sim, scn):
     loop.run_until_complete(setup())
     sim.net.fate_gen = None
     srv = (common.SERVER_IP, 5683)
-    clients = [Client(sim, common.PEER_IPS[i], 5683) for i in range(2)]
+    if scn.get("same_host"):
+        clients = [Client(sim, common.PEER_IPS[0], 5683 + i) for i in range(2)]
+    else:
+        clients = [Client(sim, common.PEER_IPS[i], 5683) for i in range(2)]
     # faults only on what the server sends (the oracle looks at what the server transmitted)
     fg = faults.fate_gen(scn.get("net", {}))
     if fg is not None:
